@@ -478,8 +478,64 @@ def _r3_uops_shape(ctx):
     stores = attr_stores(ctx.repo, "port_uops")
     ctx.floor("R3", "writers of port_uops", len(stores), 5)
     maybe_map = []
+    # data fact, re-derived on every run: do shipped entries give their micro-ops as a map of alternatives?
+    with_map = []
+    for path, d in ctx.data.models().items():
+        for e in (d.get("instruction_forms") or []) if isinstance(d, dict) else []:
+            if isinstance(e, dict) and isinstance(e.get("port_pressure"), dict):
+                with_map.append("%s %s" % (ctx.data.rel(path), e.get("name")))
+    ctx.extra["entries_with_alternatives_map"] = len(with_map)
+    FLATTEN = ("list", "tuple", "sorted", "set", "reversed", "chain", "frozenset")
+
+    def resolved_before(f, name, node):
+        """`if isinstance(name, dict): name = name[k] | list(name.values())[k]` dominates node"""
+        cfg = C.cfg_of(f)
+        for iff in [x for x in ast.walk(f.node) if isinstance(x, ast.If)]:
+            b = pm.match("isinstance(M_x, dict)", iff.test)
+            if b is None or U(b["M_x"]) != name:
+                continue
+            sel = [a for a in iff.body if isinstance(a, ast.Assign) and U(a.targets[0]) == name and (
+                pm.match("%s[M_k]" % name, a.value) is not None or pm.match("list(%s.values())[M_k]" % name, a.value) is not None
+                or pm.match("next(iter(%s.values()))" % name, a.value) is not None)]
+            if sel and cfg.dominates(iff, node):
+                return True
+        return False
+
+    def flattened_maps(f, stmt, value):
+        """arguments of list()/tuple()/chain()/... in `value` that may be an entry's alternatives map"""
+        out = []
+        for c in ast.walk(value):
+            args = []
+            if isinstance(c, ast.Call) and (pm.call_name(c) or "").split(".")[-1] in FLATTEN:
+                args = c.args
+            elif isinstance(c, (ast.List, ast.Tuple, ast.Set)):
+                args = [x.value for x in c.elts if isinstance(x, ast.Starred)]      # [*container, ...]
+            if args:
+                for a in args:
+                    if isinstance(a, ast.Call):
+                        continue        # judged on its own
+                    if isinstance(a, ast.Attribute) and a.attr == "port_pressure":
+                        out.append(a)
+                    elif isinstance(a, ast.Name):
+                        defs = [d for d in C.assigns_to(f.node, a.id) if isinstance(d, ast.Assign)]
+                        if any(isinstance(d.value, ast.Attribute) and d.value.attr == "port_pressure" for d in defs) \
+                                and not resolved_before(f, a.id, stmt):
+                            out.append(a)
+        return out
     for f, stmt, value, tgt in stores:
         v = U(value)
+        fl = flattened_maps(f, stmt, value)
+        if fl:
+            kind = "flattening copy of an entry container"
+            ctx.judge(not with_map, True, "R3", "writer %s: %s" % (f.qname, U(stmt)[:100]), f.where(stmt),
+                      "`%s` iterates `%s`, an entry's micro-op container, to build port_uops; %d shipped entries (e.g. %s) give "
+                      "that container as a map {option: [[cycles, ports], ...]} of alternatives, and iterating a map yields its "
+                      "KEYS: port_uops becomes [0, 1, ...], the isinstance(port_uops, dict) branches of the balancer and the "
+                      "report no longer see the alternatives and the integers are indexed as [cycles, ports] pairs -> TypeError"
+                      % (U(value)[:90], U(fl[0]), len(with_map), with_map[0] if with_map else None), f.qname,
+                      "flattening writer " + U(fl[0]))
+            if with_map:
+                continue
         if (v == "[]" or C.is_call_to(value, "list", "deepcopy", "copy")
                 or isinstance(value, (ast.List, ast.ListComp))
                 or pm.match("list(M_y.values())[M_k]", value) is not None):
